@@ -33,11 +33,28 @@ NA = {
 }
 
 # property -> (level, level text, level note, technique, design ref)
+H3_NOTE = "Trusted: Go toolchain and testing/synctest; the instrumenter and sim libraries (determinism self-test: ./check selftest <id>); the reference model; gSuneido's own ixkey.Spec.Key for computing index keys of model rows; interleavings at synchronisation operations only (no instruction-level races); heap store instead of the mmap file; sampling, not enumeration."
+H3_TECH = "deterministic simulation: seeded scheduler over the real db19 pipeline + per-state refinement check against a reference model"
+
+def h3(text):
+    return ("exploration", text + " Seeded search (policies: random, PCT, run-to-block, starvation; time advance as a fault) over interleavings of client tasks, checker, merger, merge/persist workers and tickers of the real db19 pipeline, with every published database state compared with an executable reference model. A clean batch is evidence, not proof.", H3_NOTE, H3_TECH, "6 (H3), 7")
+
 CLAIMED = {
+ "C01": h3("Oracle: every committed update transaction's recorded lookups and scans are re-evaluated on the model state just before its commit point (plus its own earlier writes) and must equal what it saw; no row it wrote may have changed between its snapshot and its commit."),
+ "C02": h3("Oracle: every read of a long-lived read transaction equals the model state at the version it was opened at, repeated reads are identical, and every read of an update transaction equals its start snapshot plus its own writes."),
+ "C03": h3("Oracle: each published state that differs logically from its predecessor must be the predecessor plus the complete write set of exactly one transaction whose Complete is in flight; Complete reports success iff its writes were published; aborted / failed / timed-out transactions are never published; reported row counts and sizes equal the actual rows and bytes of every state."),
+ "C06": h3("Oracle: in every published state every index (including ones created by alter create / ensure while writers run) holds exactly the primary index's rows, each under the key computed from the row, in strictly increasing order; db.Check(full) during and at the end of the run returns nil."),
+ "C07": h3("Oracle: no published state has two rows with the same key tuple, the same non-empty unique value, or more than one row in a key() table; an insert or update that collides with the transaction's own snapshot plus writes must raise, and one that does not must not."),
+ "C08": h3("Oracle: no published state has a non-empty foreign key without target row; deleting / changing a referenced target must be refused unless the key cascades that kind of change (block, cascade, cascade update as documented), in which case the model's cascaded deletes / updates are part of the transaction's write set and are checked by the attribution oracle."),
+ "C16": h3("Oracle: states published by merges, persists and schema operations (no commit in flight, or no committing transaction whose write set explains the change) must have exactly the logical contents of their predecessor in every index; each commit is applied exactly once; row count and size statistics add up in every state; full check at the end."),
  "C17": ("exploration",
    "Seeded search over interleavings of producers and the consumer of the real PriorityQueue under the simulator's scheduler (random, PCT, run-to-block, starvation policies), with exactly-once, per-transaction FIFO and porcupine linearizability oracles against a sequential priority-queue specification, plus stall detection for lost wake-ups. Sampling, not enumeration: a clean batch is evidence, not proof.",
    "Trusted: Go toolchain and testing/synctest; the instrumenter and simrt/simsync (mutex/cond simulated, interleavings at synchronisation operations); porcupine v1.3.0.",
    "deterministic simulation: seeded scheduler over real queue code + porcupine linearizability check", "6 (H1), 7 (C17)"),
+ "C18": ("exploration",
+   "Seeded search over interleavings of 2-6 concurrent allocators of the real Stor.Alloc/extend at every atomic operation and the extend lock, with tape-chosen chunk sizes 64-4096 so that chunk boundaries are crossed constantly. Oracles after every allocation and at the end: len==cap==n, ranges pairwise disjoint, no chunk straddle, within Size(), Data(off) aliases the slice, and a unique byte pattern per allocation still intact (memory-level non-overlap). The 'too many retries' panic is the permitted loud failure.",
+   "Trusted: Go toolchain and testing/synctest; simatomic/simsync scheduling points (sequentially consistent granularity); heap store instead of mmap.",
+   "deterministic simulation: seeded scheduler over real allocator code + overlap/aliasing invariants", "6 (H2), 7 (C18)"),
 }
 
 NOT_YET = {}
